@@ -132,7 +132,10 @@ def edges(ctx, out):
     rng = ctx.sub("edges")
     # always: maps whose first tempo line is not at tick 0, followed by others (refused is fine; accepted must be ordered and consistent)
     fixed = [(192, [(5, 120000), (100, 60000)]), (192, [(1, 120000), (2, 90000), (400, 150000)]), (480, [(480, 120000), (960, 60000)]),
-             (100, [(7, 60000), (57, 120000), (58, 30000)]), (192, [(191, 200000), (192, 100000)]), (3, [(2, 120000), (9, 7)])]
+             (100, [(7, 60000), (57, 120000), (58, 30000)]), (192, [(191, 200000), (192, 100000)]), (3, [(2, 120000), (9, 7)]),
+             # tempi whose ticks per minute are not a whole number, held for minutes before the next change
+             (192, [(0, 120002), (76800, 90000)]), (192, [(0, 120001), (230400, 60000), (230401, 60001)]), (480, [(0, 100003), (500000, 50000)]),
+             (7, [(0, 33333), (40000, 33334), (80000, 1)]), (192, [(0, 117000), (96, 117000), (105, 117000)])]
     for k in range(ctx.n(60, 6000) + len(fixed)):
         if k < len(fixed):
             res, tempo = fixed[k]
@@ -168,10 +171,17 @@ def edges(ctx, out):
             near = [ev.tick - 1, ev.tick, ev.tick + 1]
             vals = []
             for tk in near:
-                a_, b_ = be.timestamp_at_tick(tk)[0], be.timestamp_at_tick_no_optimize_return(tk)
+                try:
+                    a_, b_ = be.timestamp_at_tick(tk)[0], be.timestamp_at_tick_no_optimize_return(tk)
+                except Exception as ex:  # noqa: BLE001  (a tick inside an accepted map has a time)
+                    bad = bad or f"no time for tick {tk} of an accepted map: the query raised {type(ex).__name__}"
+                    vals = None
+                    break
                 if a_ != b_:
                     bad = bad or f"the two public queries disagree for tick {tk}: {a_ // US} vs {b_ // US} µs"
                 vals.append(a_)
+            if vals is None:
+                break
             if vals[1] != ev.timestamp:
                 bad = bad or (f"tempo event at tick {ev.tick} is stored at {ev.timestamp // US} µs but a query for that very tick gives {vals[1] // US} µs "
                               "(equal ticks must have identical timestamps)")
@@ -227,8 +237,23 @@ def direct_vs_events(ctx, out, cases):
                 break
 
 
+def end_pairs(dx):
+    """(end tick, end time) of every note: the tick where its longest written length ends, and the time stored for that end"""
+    out = []
+    for key, tr in dx["tracks"].items():
+        for n in tr["notes"]:
+            sus = str(n.get("sus", ""))
+            if sus.startswith("S") and sus[1:].isdigit():
+                out.append((n["tick"] + int(sus[1:]), n["end"], "note end"))
+            elif sus.startswith("T"):
+                vals = [int(v) for v in sus[1:].split(":") if v.isdigit()]
+                if vals:
+                    out.append((n["tick"] + max(vals), n["end"], "note end"))
+    return out
+
+
 def check_order(dx):
-    ev = sorted((tick, ts, kind) for kind, tick, ts, idx in common.all_events(dx))
+    ev = sorted([(tick, ts, kind) for kind, tick, ts, idx in common.all_events(dx)] + end_pairs(dx))
     for (t1, s1, k1), (t2, s2, k2) in zip(ev, ev[1:]):
         if t1 == t2 and s1 != s2:
             return f"equal ticks, different times: {k1}@{t1}={s1} µs vs {k2}@{t2}={s2} µs"
